@@ -130,6 +130,53 @@ def _u4(t0: int, dt: int):
     return True
 
 
+# --------------------------------------------------------------------------------------------- U5
+def _mk_scaled(default: int):
+    """A class named the same (module and qualified name) on every call, with another default each time -- what a plugin
+    reload, a notebook cell re-run or a per-run generated class looks like to code that keys on names."""
+    from vt import lib
+
+    class OpScaled(lib._IntOp):
+        """x * 1 + factor, factor defaulted"""
+
+        def _process_logic(self, data, factor: int = default):
+            lib.LOG.append(("OpScaled", {"factor": factor}))
+            return lib.IntData(data.data + factor)
+
+    return OpScaled
+
+
+def _u5(x: int, i: int, j: int, placed: int):
+    """history: an earlier traced run used ANOTHER class with the same name; the SER of this run must describe THIS class."""
+    from vt import lib
+    from vt.engine import assume
+    from vt.memtrace import MemTrace
+
+    DEF = (2, 5, -1)
+    assume(0 <= i < 3 and 0 <= j < 3 and 0 <= placed <= 2)
+    d1, d2 = DEF[next(k for k in range(3) if i == k)], DEF[next(k for k in range(3) if j == k)]
+    A, B = _mk_scaled(d1), _mk_scaled(d2)
+    lib.run_pipeline([{"processor": A, "parameters": {}}], lib.IntData(1), {}, trace=MemTrace())
+    cfg = {"factor": 40} if placed == 1 else {}
+    ctx = {"factor": 70} if placed == 2 else {}
+    exp_val, exp_src = (40, "node") if placed == 1 else ((70, "context") if placed == 2 else (d2, "default"))
+    tr = MemTrace()
+    lib.reset_log()
+    d, _c = lib.run_pipeline([{"processor": B, "parameters": cfg}], lib.IntData(x), ctx, trace=tr)
+    sers = [r["ser"] for r in tr.records if r["record_type"] == "ser"]
+    if len(sers) != 1:
+        return Fail("C07.U5:ser-count", "%d SERs" % len(sers))
+    got = lib.LOG[-1][1]["factor"]
+    if not (got == exp_val):
+        return Fail("C07.U5:harness", "component received %r" % (got,))
+    p = sers[0].processor
+    if not ((p.get("parameters") or {}).get("factor") == got):
+        return Fail("C07.U5:param-value-after-same-named-class", "SER says factor=%r, the processor received %r (an earlier run used a same-named class with default %r)" % ((p.get("parameters") or {}).get("factor"), got, d1))
+    if (p.get("parameter_sources") or {}).get("factor") != exp_src:
+        return Fail("C07.U5:param-source-after-same-named-class", "SER says source %r, actual %r" % ((p.get("parameter_sources") or {}).get("factor"), exp_src))
+    return True
+
+
 # --------------------------------------------------------------------------------------------- P1
 def _make_p1(T):
     use_s = shapes.uses_strings(T)
@@ -547,6 +594,7 @@ def obligations(tier: str) -> List[Ob]:
     R = C01._replay_simple
     return [
         Ob("C07.U1", _make_u1, lambda p, a: R(_u1)(p, dict(a, ka=p[0], la=p[1])), params=[(x, y) for x in range(4) for y in range(4)], budget=900, per_path=60, bound="keys a,b present/absent in pre and post by 4 flags; value kind (int, bool, None, list) and small int payload symbolic; real _stable_equal", targets=["semantiva/trace/delta_collector.py:DeltaCollector.compute", "semantiva/trace/delta_collector.py:_stable_equal", "semantiva/trace/_utils.py:serialize"]),
+        Ob("C07.U5", lambda _p: _u5, R(_u5), budget=300, per_path=60, bound="two classes with one qualified name and defaults picked by symbolic indices from {2, 5, -1}, run one after the other (traced); the parameter of the second placed in default / node / context (selector); payload symbolic", targets=["semantiva/execution/orchestrator/orchestrator.py:SemantivaOrchestrator._resolve_params_with_sources"], stubs=list(STUBS)),
         Ob("C07.U4", lambda _p: _u4, R(_u4), budget=120, bound="clock start and non-negative advance symbolic (whole seconds)", targets=["semantiva/execution/orchestrator/orchestrator.py:SemantivaOrchestrator._end_timing"]),
         Ob("C07.P1", _make_p1, _replay_p1, params=templates(tier), budget=400 if not big else 900, per_path=60,
            bound="per shape template (as C01: length-1, curated, all length-2; thorough +length-3 and a seeded draw), all values and placements symbolic; every SER's parameters/sources/ref/delta/checks vs the recorded run",
